@@ -1,5 +1,6 @@
 CONSTANTS
   Alias = FALSE
+  ExplicitPrefixed = FALSE
   MaxLen = 3
   ExportLen = 3
 INIT Init
